@@ -176,6 +176,10 @@ def compiler_crashed_everywhere(res):
     if klass(ao) != "nocompile" or klass(c) != "nocompile" or klass(it) != "fail":
         return False
     msg = RM.sub("", it["stdout"]).strip()
+    if not msg and isinstance(it.get("rc"), int) and it["rc"] < 0:
+        # killed by a signal before it wrote anything (a stack overflow leaves the fault handler no room to
+        # report): the same on every route when the two compilations die of the same signal, silently too
+        return all(r.get("compile_rc") == it["rc"] and not RM.sub("", (r.get("compile_out") or "")).strip() for r in (ao, c))
     if not msg or not ("Program fault" in msg or "Compiler bug" in msg):
         return False
     return all(RM.sub("", (r.get("compile_out") or "")).strip() == msg for r in (ao, c))
